@@ -12,7 +12,12 @@
 (*               this run's invocation index                               *)
 (*     reached   name of the object that reached the caller: the same name *)
 (*               iff it is the same object with unchanged arguments;       *)
-(*               "none" if the call returned                               *)
+(*               "none" if the call returned.  With a PERSISTENT fault     *)
+(*               (every invocation from the index on fails, each with its  *)
+(*               own instance) `injected` is the FIRST one                 *)
+(*     content0, content  digest of that object (type, args, attributes    *)
+(*               incl. marks, str()) when raised / when caught by the      *)
+(*               caller                                                    *)
 (*     written   what the output stream had received when the call ended   *)
 (*               (strings: TLC evaluates Len and SubSeq on strings)        *)
 (*     next, nextfresh   result of the follow-up call (possibly the same    *)
@@ -31,6 +36,7 @@ VARIABLE tid
 
 JudgeRun(t, r, i) ==
   IF ~H!PassedThrough(r.reached, r.injected) THEN [ok |-> FALSE, why |-> "exception did not pass through", at |-> i]
+  ELSE IF ~H!ContentUnchanged(r.content, r.content0) THEN [ok |-> FALSE, why |-> "exception content changed", at |-> i]
   ELSE IF ~H!IsPrefix(r.written, t.full) THEN [ok |-> FALSE, why |-> "written is not a prefix", at |-> i]
   ELSE IF ~H!StateRestored(r.gfail, t.g0) THEN [ok |-> FALSE, why |-> "globals changed by the failed call", at |-> i]
   ELSE IF ~H!ArgumentsUntouched(r.args, r.args0) THEN [ok |-> FALSE, why |-> "caller's arguments changed", at |-> i]
